@@ -716,6 +716,115 @@ async fn shutdown_scenario(a: &Value) -> Value {
            "remote_peers_saw_disconnect": remote_saw, "weak_reference_upgrades": weak_upgrades, "calls_after_shutdown": after})
 }
 
+/// C04 / C06: the user's service exerts back-pressure (capacity 1, tower::limit::ConcurrencyLimit) and is saturated by one peer's slow request; another
+/// peer sends a request and then disconnects.  Its connection's end must be noticed all the same: delisted and LostPeer within 2 s (the slow request
+/// takes 4 s); a third peer can connect meanwhile.
+async fn backpressure_service(_a: &Value) -> Value {
+    use anemo::types::PeerEvent;
+    let slow = tower::service_fn(|r: Request<Bytes>| async move { if r.body().starts_with(b"slow") { tokio::time::sleep(Duration::from_millis(4000)).await; } Ok::<_, std::convert::Infallible>(Response::new(r.into_body())) });
+    let limited = tower::ServiceExt::boxed_clone(tower::limit::ConcurrencyLimit::new(slow, 1));
+    let mut c = Config::default();
+    c.connect_timeout_ms = Some(3000);
+    let a = anemo::Network::bind("127.0.0.1:0").server_name("verif").private_key([151; 32]).config(c).start(limited).expect("a");
+    let (b, cpeer, d) = (network(152, None), network(153, None), network(154, None));
+    let aid = b.connect(a.local_addr()).await.expect("b connects");
+    let _ = cpeer.connect(a.local_addr()).await.expect("c connects");
+    for _ in 0..100 { if a.peers().len() == 2 { break; } tokio::time::sleep(Duration::from_millis(10)).await; }
+    let (mut rx, _snap) = a.subscribe().expect("subscribe");
+    let b2 = b.clone();
+    let holder = tokio::spawn(async move { b2.rpc(aid, Request::new(Bytes::from_static(b"slow-holder"))).await.is_ok() });
+    tokio::time::sleep(Duration::from_millis(200)).await;
+    let c2 = cpeer.clone();
+    let queued = tokio::spawn(async move { let _ = c2.rpc(aid, Request::new(Bytes::from_static(b"queued"))).await; });
+    tokio::time::sleep(Duration::from_millis(200)).await;
+    let cid = cpeer.peer_id();
+    let t0 = std::time::Instant::now();
+    let _ = cpeer.disconnect(aid);
+    queued.abort();
+    let (mut delisted_ms, mut lost_event_ms) = (None, None);
+    for _ in 0..300 {
+        if delisted_ms.is_none() && !a.peers().contains(&cid) { delisted_ms = Some(t0.elapsed().as_millis() as u64); }
+        while let Ok(e) = rx.try_recv() { if matches!(e, PeerEvent::LostPeer(p, _) if p == cid) && lost_event_ms.is_none() { lost_event_ms = Some(t0.elapsed().as_millis() as u64); } }
+        if delisted_ms.is_some() && lost_event_ms.is_some() { break; }
+        tokio::time::sleep(Duration::from_millis(10)).await;
+    }
+    let t1 = std::time::Instant::now();
+    let newcomer = matches!(tokio::time::timeout(Duration::from_millis(2000), d.connect(a.local_addr())).await, Ok(Ok(_)));
+    let newcomer_ms = t1.elapsed().as_millis() as u64;
+    let holder_ok = tokio::time::timeout(Duration::from_secs(6), holder).await.map(|r| r.unwrap_or(false)).unwrap_or(false);
+    json!({"slow_request_ms": 4000, "disconnected_peer_delisted_after_ms": delisted_ms, "lost_peer_event_after_ms": lost_event_ms, "newcomer_connected": newcomer, "newcomer_ms": newcomer_ms, "slow_request_answered": holder_ok})
+}
+
+/// C09: a connected peer goes SILENT (its whole runtime stops being polled: no close frame, no acknowledgement -- what a partition looks like).  The node has
+/// an idle timeout of 1.5 s (keep-alive 0.5 s): whatever way the connection was made (dial by address, dial naming the identity, background dial of a
+/// High-affinity known peer, dialed by the peer), the peer must be delisted and a LostPeer event delivered within 4 s.
+fn silent_peer_loss() -> Value {
+    use anemo::types::{PeerAffinity, PeerEvent, PeerInfo};
+    let mut out = Vec::new();
+    for how in ["dial_by_address", "dial_naming_the_identity", "background_dial", "dialed_by_the_peer"] {
+        let (info_tx, info_rx) = std::sync::mpsc::channel::<(std::net::SocketAddr, PeerId)>();
+        let (dial_tx, dial_rx) = std::sync::mpsc::channel::<std::net::SocketAddr>();
+        let freeze = std::sync::Arc::new(std::sync::atomic::AtomicBool::new(false));
+        let done = std::sync::Arc::new(std::sync::atomic::AtomicBool::new(false));
+        let (f2, d2) = (freeze.clone(), done.clone());
+        let remote = std::thread::spawn(move || {
+            let rt = tokio::runtime::Builder::new_current_thread().enable_all().build().unwrap();
+            let net = rt.block_on(async {
+                let n = network(161, None);
+                let _ = info_tx.send((n.local_addr(), n.peer_id()));
+                loop {
+                    if let Ok(addr) = dial_rx.try_recv() { let _ = n.connect(addr).await; }
+                    if f2.load(std::sync::atomic::Ordering::SeqCst) { break; }
+                    tokio::time::sleep(Duration::from_millis(10)).await;
+                }
+                n
+            });
+            // nothing polls this runtime any more: the peer is silent, its sockets stay open
+            for _ in 0..140 { if d2.load(std::sync::atomic::Ordering::SeqCst) { break; } std::thread::sleep(Duration::from_millis(50)); }
+            drop(net); drop(rt);
+        });
+        let rt = tokio::runtime::Builder::new_multi_thread().worker_threads(2).enable_all().build().unwrap();
+        let r = rt.block_on(async {
+            let (raddr, rid) = match info_rx.recv_timeout(Duration::from_secs(5)) { Ok(x) => x, Err(_) => return json!({"how": how, "setup_failed": true}) };
+            let mut c = Config::default();
+            c.connect_timeout_ms = Some(3000);
+            c.connectivity_check_interval_ms = Some(200);
+            let mut q = anemo::QuicConfig::default();
+            q.max_idle_timeout_ms = Some(1500);
+            q.keep_alive_interval_ms = Some(500);
+            c.quic = Some(q);
+            let subject = anemo::Network::bind("127.0.0.1:0").server_name("verif").private_key([162; 32]).config(c).start(echo()).expect("subject");
+            let (mut rx, _s) = subject.subscribe().expect("subscribe");
+            match how {
+                "dial_by_address" => { let _ = subject.connect(raddr).await; }
+                "dial_naming_the_identity" => { let _ = subject.connect_with_peer_id(raddr, rid).await; }
+                "background_dial" => { subject.known_peers().insert(PeerInfo { peer_id: rid, affinity: PeerAffinity::High, address: vec![raddr.into()] }); }
+                _ => { let _ = dial_tx.send(subject.local_addr()); }
+            }
+            let mut connected = false;
+            for _ in 0..300 { if subject.peers().contains(&rid) { connected = true; break; } tokio::time::sleep(Duration::from_millis(10)).await; }
+            tokio::time::sleep(Duration::from_millis(300)).await;
+            freeze.store(true, std::sync::atomic::Ordering::SeqCst);
+            tokio::time::sleep(Duration::from_millis(50)).await;
+            let t0 = std::time::Instant::now();
+            let (mut delisted_ms, mut lost_ms) = (None, None);
+            for _ in 0..550 {
+                if delisted_ms.is_none() && !subject.peers().contains(&rid) { delisted_ms = Some(t0.elapsed().as_millis() as u64); }
+                while let Ok(e) = rx.try_recv() { if matches!(e, PeerEvent::LostPeer(p, _) if p == rid) && lost_ms.is_none() { lost_ms = Some(t0.elapsed().as_millis() as u64); } }
+                if delisted_ms.is_some() && lost_ms.is_some() { break; }
+                tokio::time::sleep(Duration::from_millis(10)).await;
+            }
+            // (a High-affinity peer is redialed at once: the listing may show it again; what counts is the report of the loss)
+            json!({"how": how, "connected_first": connected, "idle_timeout_ms": 1500, "delisted_after_ms": delisted_ms, "lost_peer_event_after_ms": lost_ms})
+        });
+        done.store(true, std::sync::atomic::Ordering::SeqCst);
+        rt.shutdown_timeout(Duration::from_millis(500));
+        let _ = remote.join();
+        out.push(r);
+    }
+    json!({"cases": out})
+}
+
 fn fnv(b: &[u8]) -> u64 { let mut h: u64 = 0xcbf29ce484222325; for x in b { h ^= *x as u64; h = h.wrapping_mul(0x100000001b3); } h }
 /// C02 end to end on real networks that have BOTH default timeouts configured (so both timeout middlewares are in the path): requests with
 /// header maps of 0..300 entries (a `timeout` header longer and shorter than the defaults, mixed-case names, empty and long values) and bodies of
@@ -728,7 +837,12 @@ async fn end_to_end_fidelity(_a: &Value) -> Value {
         let report = json!({"route": r.route(), "headers": seen, "body_len": r.body().len(), "body_fnv": fnv(r.body())});
         let status: u16 = r.headers().get("x-status").and_then(|s| s.parse().ok()).unwrap_or(200);
         let n: usize = r.headers().get("x-resp-headers").and_then(|s| s.parse().ok()).unwrap_or(0);
-        let mut resp = Response::new(Bytes::from(serde_json::to_vec(&report).unwrap())).with_status(anemo::types::response::StatusCode::new(status).unwrap());
+        // the answer: the report, a newline, and as many pattern bytes as the caller asked for
+        let pad: usize = r.headers().get("x-resp-pad").and_then(|s| s.parse().ok()).unwrap_or(0);
+        let mut out = serde_json::to_vec(&report).unwrap();
+        out.push(b'\n');
+        out.extend((0..pad).map(|k| (k * 7 + 3) as u8));
+        let mut resp = Response::new(Bytes::from(out)).with_status(anemo::types::response::StatusCode::new(status).unwrap());
         for i in 0..n { resp = resp.with_header(format!("H-{i}"), format!("v{i}")); }
         Ok::<_, std::convert::Infallible>(resp)
     }));
@@ -743,9 +857,9 @@ async fn end_to_end_fidelity(_a: &Value) -> Value {
     let yid = x.connect(y.local_addr()).await.expect("connect");
     let xid = x.peer_id();
     for _ in 0..200 { if y.peers().contains(&xid) { break; } tokio::time::sleep(Duration::from_millis(5)).await; }
-    let mut cases: Vec<(usize, usize, Option<&str>, u16, usize)> = Vec::new();      // (request headers, body bytes, timeout header, status, response headers)
+    let mut cases: Vec<(usize, usize, Option<&str>, u16, usize)> = Vec::new();      // (request headers, body bytes, timeout header, status, response headers); a body of 2 MB or more also asks for a 3 MB answer
     for nh in [0usize, 1, 8, 64, 65, 100, 300] { cases.push((nh, 10, None, 200, 0)); cases.push((3, 10, None, 200, nh)); }
-    for bl in [0usize, 1, 65_535, 65_536, 65_537, 300_000] { cases.push((2, bl, None, 200, 2)); }
+    for bl in [0usize, 1, 65_535, 65_536, 65_537, 300_000, 1_048_576, 1_048_577, 2_000_000] { cases.push((2, bl, None, 200, 2)); }
     for t in ["60000000000", "1000000000", "10000000000", "0", "soon", "18446744073709551615"] { cases.push((2, 10, Some(t), 200, 1)); }
     for st in [400u16, 404, 408, 429, 500, 505, 520] { cases.push((2, 10, None, st, 70)); }
     let mut bad = Vec::new();
@@ -754,7 +868,8 @@ async fn end_to_end_fidelity(_a: &Value) -> Value {
         for dir in 0..2 {
             let (from, to) = if dir == 0 { (&x, yid) } else { (&y, xid) };
             let body: Vec<u8> = (0..*bl).map(|k| (k * 31 + i) as u8).collect();
-            let mut req = Request::new(Bytes::from(body.clone())).with_route(format!("/case/{i}")).with_header("x-status", status.to_string()).with_header("x-resp-headers", rh.to_string());
+            let pad: usize = if *bl >= 1_048_576 { 3_000_000 } else if *bl == 300_000 { 1_048_577 } else { 0 };
+            let mut req = Request::new(Bytes::from(body.clone())).with_route(format!("/case/{i}")).with_header("x-status", status.to_string()).with_header("x-resp-headers", rh.to_string()).with_header("x-resp-pad", pad.to_string());
             for k in 0..*nh { req = req.with_header(match k % 4 { 0 => format!("Key-{k}"), 1 => format!("key-{k}"), 2 => format!("KEY_{k}"), _ => format!("k.{k}") }, if k % 5 == 0 { String::new() } else if k == 7 { "x".repeat(5000) } else { format!("value {k}") }); }
             if let Some(t) = timeout { req = req.with_header("timeout", t.to_string()); }
             if *timeout == Some("0") || *timeout == Some("soon") { continue; }    // (an immediate or unparsable deadline is C11's business: the call may legitimately fail)
@@ -766,7 +881,10 @@ async fn end_to_end_fidelity(_a: &Value) -> Value {
                 Err(_) => Some("no answer within 8 s".to_owned()),
                 Ok(Err(e)) => Some(format!("error: {e}")),
                 Ok(Ok(resp)) => {
-                    let rep: Value = serde_json::from_slice(resp.body()).unwrap_or(Value::Null);
+                    let split = resp.body().iter().position(|b| *b == b'\n').unwrap_or(resp.body().len());
+                    let rep: Value = serde_json::from_slice(&resp.body()[..split]).unwrap_or(Value::Null);
+                    let tail = &resp.body()[(split + 1).min(resp.body().len())..];
+                    let tail_ok = tail.len() == pad && tail.iter().enumerate().all(|(k, b)| *b == (k * 7 + 3) as u8);
                     let seen: Vec<(String, String)> = rep["headers"].as_array().map(|v| v.iter().map(|p| (p[0].as_str().unwrap_or("").to_owned(), p[1].as_str().unwrap_or("").to_owned())).collect()).unwrap_or_default();
                     let mut got_h: Vec<(String, String)> = resp.headers().iter().map(|(k, v)| (k.clone(), v.clone())).collect();
                     got_h.sort();
@@ -776,11 +894,12 @@ async fn end_to_end_fidelity(_a: &Value) -> Value {
                     else if rep["route"].as_str() != Some(format!("/case/{i}").as_str()) { Some("the handler saw another route".to_owned()) }
                     else if seen != sent { Some(format!("the handler saw {} request headers, {} were sent; first difference: {:?}", seen.len(), sent.len(), seen.iter().zip(sent.iter()).find(|(a, b)| a != b).map(|(a, b)| (a.0.clone(), a.1.chars().take(40).collect::<String>(), b.0.clone(), b.1.chars().take(40).collect::<String>())))) }
                     else if rep["body_len"].as_u64() != Some(*bl as u64) || rep["body_fnv"].as_u64() != Some(fnv(&body)) { Some("the handler saw another body".to_owned()) }
+                    else if !tail_ok { Some(format!("the caller received {} bytes of response body after the report, the handler produced {}", tail.len(), pad)) }
                     else if got_h != want_h { Some(format!("the caller received {} response headers, the handler produced {}", got_h.len(), want_h.len())) }
                     else { None }
                 }
             };
-            if let Some(w) = why { if bad.len() < 4 { bad.push(json!({"case": {"request_headers": nh, "body_bytes": bl, "timeout_header": timeout, "status": status, "response_headers": rh, "direction": if dir == 0 { "dialer to listener" } else { "listener to dialer" }}, "why": w})); } }
+            if let Some(w) = why { if bad.len() < 4 { bad.push(json!({"case": {"request_headers": nh, "body_bytes": bl, "response_body_bytes_after_report": pad, "timeout_header": timeout, "status": status, "response_headers": rh, "direction": if dir == 0 { "dialer to listener" } else { "listener to dialer" }}, "why": w})); } }
         }
     }
     json!({"calls": done, "bad": bad})
@@ -1010,12 +1129,17 @@ fn runtime_teardown() -> Value {
 
 fn main() {
     let args: Vec<String> = std::env::args().collect();
+    if args.get(1).map(|s| s.as_str()) == Some("silent_peer_loss") {
+        std::panic::set_hook(Box::new(|_| {}));
+        println!("{}", silent_peer_loss());
+        std::process::exit(0);
+    }
     if args.get(1).map(|s| s.as_str()) == Some("runtime_teardown") {
         std::panic::set_hook(Box::new(|_| {}));
         println!("{}", runtime_teardown());
         std::process::exit(0);
     }
-    let multi = matches!(args.get(1).map(|s| s.as_str()), Some("admission") | Some("default_timeouts") | Some("rpc_pairing") | Some("history") | Some("oversize_confined") | Some("hostile_streams") | Some("network_names") | Some("claimed_name_grid") | Some("stolen_certificate") | Some("abrupt_close_mt") | Some("shutdown_scenario") | Some("abandoned_rpcs") | Some("typed_rpc_roundtrip") | Some("busy_node_still_dials") | Some("panicking_handler") | Some("end_to_end_fidelity") | Some("mutual_dial_inflight") | Some("identity_claims_in_headers") | Some("header_only_deadline") | Some("hostile_requests"));
+    let multi = matches!(args.get(1).map(|s| s.as_str()), Some("admission") | Some("default_timeouts") | Some("rpc_pairing") | Some("history") | Some("oversize_confined") | Some("hostile_streams") | Some("network_names") | Some("claimed_name_grid") | Some("stolen_certificate") | Some("backpressure_service") | Some("abrupt_close_mt") | Some("shutdown_scenario") | Some("abandoned_rpcs") | Some("typed_rpc_roundtrip") | Some("busy_node_still_dials") | Some("panicking_handler") | Some("end_to_end_fidelity") | Some("mutual_dial_inflight") | Some("identity_claims_in_headers") | Some("header_only_deadline") | Some("hostile_requests"));
     let rt = if multi {
         tokio::runtime::Builder::new_multi_thread().worker_threads(2).enable_all().build().unwrap()
     } else {
@@ -1153,6 +1277,7 @@ async fn run(args: Vec<String>) {
         "panicking_handler" => panicking_handler(&a).await,
         "auth_sweep" => auth_sweep(&a).await,
         "abandoned_rpcs" => abandoned_rpcs(&a).await,
+        "backpressure_service" => backpressure_service(&a).await,
         "shutdown_scenario" => shutdown_scenario(&a).await,
         "codegen_routes" => codegen::codegen_routes(&a).await,
         "typed_rpc_roundtrip" => hostile::typed_rpc_roundtrip(&a).await,
